@@ -369,6 +369,20 @@ def check_curve(case):
         nevals += 2
         if _first_bad(gi, gf, 0.0) is not None:
             viol.append(("C08/broadcast/integer-load", {"int": gi.tolist(), "float": gf.tolist()}))
+        # integer-typed arguments in every container (python int, np.int64, int64 array), both directions: the numbers
+        # of the float argument ("for every load/cycle value": 20000 is the same cycle number as 20000.0)
+        for what, fn, vals in (("cycles", w.cycles, (1, 100, 400)), ("load", w.load, (1000, 20000, 10 ** 7))):
+            for Pq in (P, native):
+                ref_f = [float(np.asarray(fn(float(v), Pq), dtype=float)) for v in vals]
+                got_c = {"python-int": [float(np.asarray(fn(int(v), Pq), dtype=float)) for v in vals],
+                         "np.int64": [float(np.asarray(fn(np.int64(v), Pq), dtype=float)) for v in vals],
+                         "int64-array": np.asarray(fn(np.array(vals, dtype=np.int64), Pq), dtype=float).tolist()}
+                nevals += 10
+                for cont, got in got_c.items():
+                    if _first_bad(got, ref_f, 1e-13) is not None:
+                        viol.append(("C08/broadcast/integer-%s-argument/%s" % ("load" if what == "cycles" else "cycles", cont),
+                                     {"direction": what, "P": Pq, "values": list(vals), "integer_argument": got, "float_argument": ref_f}))
+                        break
         fat = np.asarray(wc.fatigue.cycles(larr, P), dtype=float)
         nevals += 1
         if _first_bad(fat, NP[P], 0.0) is not None:
